@@ -69,6 +69,7 @@ type Options struct {
 	LivelockProperty string                 // property id livelocks are reported under
 	ValidateEvery    int                    // snapshot mode: replay-validate every n-th expanded state (default 4)
 	NoSnapshots      bool                   // force replay mode
+	PanicProperty    string                 // property id a panic of the code under test is reported under
 }
 
 // Result of one scenario exploration.
@@ -258,7 +259,19 @@ func Explore(scenario string, factory Factory, opt Options) Result {
 					sw.TakeViolations()
 				}
 				before := copyCounters(sw.Counters())
-				sw.Apply(a)
+				if msg := safeApply(sw, a); msg != "" {
+					// A panic inside the code under test is a finding, not a tool error. The
+					// world may be poisoned, so the search stops here.
+					prop := opt.PanicProperty
+					if prop == "" {
+						prop = "C20"
+					}
+					res.Found = append(res.Found, Found{Violation: Violation{Property: prop, Monitor: "panic", Detail: msg}, Scenario: scenario, Trace: append(append([]string(nil), n.path...), a)})
+					res.Exhaustive = false
+					res.CapHit = "panic"
+					stopAll = true
+					break
+				}
 				res.Steps++
 				res.Transitions++
 				res.ActionKinds[actionKind(a)]++
@@ -337,6 +350,16 @@ func Explore(scenario string, factory Factory, opt Options) Result {
 	}
 	res.WallS = time.Since(start).Seconds()
 	return res
+}
+
+func safeApply(w World, a string) (msg string) {
+	defer func() {
+		if r := recover(); r != nil {
+			msg = fmt.Sprintf("the code under test panicked on %q: %v", a, r)
+		}
+	}()
+	w.Apply(a)
+	return ""
 }
 
 func copyCounters(m map[string]int) map[string]int {
